@@ -211,7 +211,11 @@ func (aa *aliasAbs) mapperRange(f *ssa.Function) (runeSet, bool) {
 			continue
 		}
 		var image func(rune) rune
-		switch rs := ret.String(); rs {
+		rs := ret.String()
+		if i := strings.LastIndex(rs, ")@"); i >= 0 {
+			rs = rs[:i+1]
+		}
+		switch rs {
 		case "p0":
 			image = func(r rune) rune { return r }
 		case "unicode.ToLower(p0)":
@@ -233,8 +237,16 @@ func (aa *aliasAbs) mapperRange(f *ssa.Function) (runeSet, bool) {
 // evalRuneAtom evaluates a fact atom about the rune parameter p0 for one concrete rune.
 func evalRuneAtom(atom string, r rune) (val, known bool) {
 	num := func(s string) (int64, bool) {
-		if s == "p0" {
+		if i := strings.LastIndex(s, ")@"); i >= 0 && i+2 <= len(s) {
+			s = s[:i+1]
+		}
+		switch s {
+		case "p0":
 			return int64(r), true
+		case "unicode.ToLower(p0)":
+			return int64(unicode.ToLower(r)), true // the mapping function folds the case first, then tests
+		case "unicode.ToUpper(p0)":
+			return int64(unicode.ToUpper(r)), true
 		}
 		n, err := strconv.ParseInt(s, 10, 64)
 		return n, err == nil
